@@ -16,7 +16,7 @@ func init() {
 	register(&Property{
 		ID:        "C38",
 		Title:     "CNI delete is idempotent and leaves no address behind",
-		Technique: "static analysis: error-tolerance guards, dominance of release calls over success exits, sibling derivation signatures, cut-set reachability from the AutoAssign call, whole-handle guard on handle deletion (go/ssa over cni-plugin/pkg/ipamplugin and libcalico-go/lib/ipam)",
+		Technique: "static analysis: error-tolerance guards, dominance of release calls over success exits, sibling derivation signatures, cut-set reachability from the AutoAssign call, whole-handle guard on handle deletion, interprocedural escape analysis of not-found outcomes of keyed reads (go/ssa over cni-plugin/pkg/ipamplugin and libcalico-go/lib/ipam)",
 		DesignRef: "DESIGN.md §3 C38",
 		Explanation: "Decides structural necessary conditions on the CNI IPAM plugin: " +
 			"(idem) in cmdDel the error of every IPAM call keyed only by the handle ID (ReleaseByHandle, IPsByHandle) is returned only after the ErrorResourceDoesNotExist tolerance; " +
@@ -25,8 +25,11 @@ func init() {
 			"(add) after AutoAssign every success exit of cmdAdd has, for each requested family, appended that family's address to the result, and only under PartialFulfillmentError()==nil for that family; " +
 			"(rollback) a partial-fulfilment error for one family is returned only after ReleaseIPs of the other family's addresses, unless that family holds none; " +
 			"(whole) in libcalico-go/lib/ipam every call of blockReaderWriter.deleteHandle(kvp) is guarded by len(handle.Block)==0 — directly, through a one-argument bool helper returning it (empty()), or a one-argument count of the handle compared with 0 — " +
-			"on the handle asserted from that same kvp.Value; a count belonging to one block (decrementBlock's result, a map lookup, a per-version count) is not accepted, because cmdDel's \"handle not found = released\" is only sound if the handle object outlives its last block.",
-		NotDecided: "IPAM library behaviour (C19–C21) other than the handle-deletion guard; the KubeVirt persistence policy (when a VM handle may be released); hard AutoAssign errors return without rollback and rely on the runtime's DEL; lock and timeout handling; that PartialFulfillmentError()==nil means len(IPs) >= NumRequested.",
+			"on the handle asserted from that same kvp.Value; a count belonging to one block (decrementBlock's result, a map lookup, a per-version count) is not accepted, because cmdDel's \"handle not found = released\" is only sound if the handle object outlives its last block; " +
+			"(notfound) the only ErrorResourceDoesNotExist that ipamClient.ReleaseByHandle / IPsByHandle can return is that of the read of the handle object (backend Get of an IPAMHandleKey): the error of every other keyed read " +
+			"(backend/api.Client.Get) that is passed up through the static call tree — the per-block read in releaseByHandle, the IPAM config — crosses an `is ErrorResourceDoesNotExist` = false (or == nil) edge before every return it can reach, " +
+			"so a handle entry pointing at a block that no longer exists cannot abort the per-block loop with an error cmdDel swallows as success.",
+		NotDecided: "IPAM library behaviour (C19–C21) other than the handle-deletion guard and the not-found escape rule; not-found outcomes of datastore WRITES inside ReleaseByHandle (updateBlock's error is returned as is: it can only be not-found when another releaser deleted the block between the read and the CAS); wrapped errors (fmt.Errorf(%w)) — cmdDel's type assertion does not see through them; the KubeVirt persistence policy (when a VM handle may be released); hard AutoAssign errors return without rollback and rely on the runtime's DEL; lock and timeout handling; that PartialFulfillmentError()==nil means len(IPs) >= NumRequested.",
 		Assumptions: []string{
 			"go/types + go/ssa (x/tools v0.50.0) model of the current source, CGO_ENABLED=0 build, GOOS=linux",
 			"ipam.Interface.AutoAssign returns (IPv4 assignments, IPv6 assignments, error)",
@@ -61,6 +64,12 @@ func init() {
 				Old: "\t\tif handle.empty() {", New: "\t\tif handle.Block[blockCIDR.String()] == 0 {", Expect: "C38.whole/ipamClient.decrementHandle/deleteHandle"},
 			{Name: "emptiness helper looks at one IP version only", File: "libcalico-go/lib/ipam/ipam.go",
 				Old: "\t\tif handle.empty() {", New: "\t\tif handle.totalCountByVersion(blockCIDR.Version()) == 0 {", Expect: "C38.whole/ipamClient.decrementHandle/deleteHandle"},
+			{Name: "seeded C38-4 shape: a block that no longer exists aborts the release of the handle's other blocks", File: "libcalico-go/lib/ipam/ipam.go",
+				Old: "\t\tif err != nil {\n\t\t\tif _, ok := err.(cerrors.ErrorResourceDoesNotExist); ok {\n\t\t\t\t// Block doesn't exist, so all addresses are already\n\t\t\t\t// unallocated.  This can happen when a handle is\n\t\t\t\t// overestimating the number of assigned addresses.\n\t\t\t\treturn nil\n\t\t\t} else {\n\t\t\t\treturn err\n\t\t\t}\n\t\t}\n\n\t\t// Release the IP by handle.\n", New: "\t\tif err != nil {\n\t\t\treturn err\n\t\t}\n\n\t\t// Release the IP by handle.\n", Expect: "C38.notfound/ReleaseByHandle/blockReaderWriter.queryBlock(BlockKey)"},
+			{Name: "missing block not tolerated in the retry-exhausted loop of releaseByHandle", File: "libcalico-go/lib/ipam/ipam.go",
+				Old: "\t\tif err != nil {\n\t\t\tif _, ok := err.(cerrors.ErrorResourceDoesNotExist); ok {\n\t\t\t\t// Block doesn't exist, so all addresses are already\n\t\t\t\t// unallocated.  This can happen when a handle is\n\t\t\t\t// overestimating the number of assigned addresses.\n\t\t\t\treturn nil\n\t\t\t} else {\n\t\t\t\treturn err\n\t\t\t}\n\t\t}\n\t\tblock := blockFromBackend(config, obj.Value.(*model.AllocationBlock))\n\t\t// We delete the block without waiting", New: "\t\tif err != nil {\n\t\t\treturn err\n\t\t}\n\t\tblock := blockFromBackend(config, obj.Value.(*model.AllocationBlock))\n\t\t// We delete the block without waiting", Expect: "C38.notfound/ReleaseByHandle/blockReaderWriter.queryBlock(BlockKey)"},
+			{Name: "missing IPAM config reported as not-found instead of falling back to defaults", File: "libcalico-go/lib/ipam/ipam.go",
+				Old: "\t\tif _, ok := err.(cerrors.ErrorResourceDoesNotExist); !ok {\n\t\t\tlog.WithError(err).Error(\"Error getting IPAM config\")\n\t\t\treturn nil, err\n\t\t}\n", New: "\t\tif _, ok := err.(cerrors.ErrorResourceDoesNotExist); ok {\n\t\t\tlog.WithError(err).Error(\"Error getting IPAM config\")\n\t\t\treturn nil, err\n\t\t}\n", Expect: "C38.notfound/ReleaseByHandle/ipamClient.GetIPAMConfig(IPAMConfigKey)"},
 			{Name: "IPv6 failure releases the wrong family", File: "cni-plugin/pkg/ipamplugin/ipam_plugin.go",
 				Old: "\t\t\t\tfor _, v4 := range v4Assignments.IPs {\n\t\t\t\t\tv4IPs = append(v4IPs, ipam.ReleaseOptions{Address: v4.IP.String()})", New: "\t\t\t\tfor _, v4 := range v6Assignments.IPs {\n\t\t\t\t\tv4IPs = append(v4IPs, ipam.ReleaseOptions{Address: v4.IP.String()})", Expect: "C38.rollback/v6-short"},
 		},
@@ -350,11 +359,15 @@ func runC38(c *Ctx) {
 
 	c.Rule("C38.whole", "E-GUARD", "libcalico-go/lib/ipam: an IPAMHandle is deleted only under a test that is a function of the whole handle being deleted (len(handle.Block)==0, directly or through a one-argument helper such as empty()), never under a per-block count", 1)
 
+	c.Rule("C38.notfound", "E-ERR (interprocedural)", "libcalico-go/lib/ipam: the only ErrorResourceDoesNotExist that can be returned by ipamClient.ReleaseByHandle / IPsByHandle — the calls whose not-found cmdDel treats as success — is the one of the read of the handle object (Get of an IPAMHandleKey); the not-found of every other keyed read whose error is passed up (a block the handle points at, the IPAM config) is tested and absorbed before it can reach a return", 5)
+
 	c38Idem(c, p, del)
 	c38Both(c, p, del)
 	c38Handle(c, p, add, del)
 	c38Add(c, p, add)
 	c38Whole(c)
+	// the handle-keyed calls whose not-found cmdDel tolerates (C38.idem) must only report the handle's own absence
+	c38NotFound(c, c.Load(c21IpamPkg), []string{"ReleaseByHandle", "IPsByHandle"})
 }
 
 // ---------------------------------------------------------------------- whole --
